@@ -168,6 +168,10 @@ class Gen:
                 for p in late:
                     self.setup(p)
                 joined = True
+                if self.profile == 'assets':
+                    # asset events of a peer whose handshake is still under way expire with the engine's
+                    # event buffers (wall-clock): let the joiner connect before it publishes
+                    self.emit('ROUND 8')
                 if r.random() < 0.5:
                     self.emit('ROUND %d' % r.randint(1, 6))
         for p in late:
@@ -213,12 +217,13 @@ def _pace(r, lines, peers):
             lines.append('FRAME %d %d' % (p, r.randint(1, 2)))
 
 
-def values_clean(seed, nops=16):
+def values_clean(seed, nops=16, family=None):
     """C02: writes from arbitrary peers to several keys; two writes to one key by different peers
     are separated by a drain; every type registered on every peer; no exclusion."""
     r = random.Random(seed)
     n = r.choice([2, 3, 3, 4])
-    types = sorted(r.sample([0, 1, 2, 3, 4, 5, 6, 7], r.randint(1, 3)))
+    fam = family or [0, 1, 2, 3, 4, 5, 6, 7]
+    types = sorted(r.sample(fam, r.randint(1, min(3, len(fam)))))
     lines = _header(r, n, types)
     for p in range(n):
         lines.append('OP %d setup' % p)
@@ -281,7 +286,7 @@ def single_writer(seed, nops=14):
     """C10: one peer alone writes one key (bursts, pauses); the others write other entities."""
     r = random.Random(seed)
     n = r.choice([2, 3, 3, 4])
-    t = r.choice([0, 1, 2, 4, 7])
+    t = r.choice([0, 1, 2, 4, 7, 7])
     lines = _header(r, n, [t])
     for p in range(n):
         lines.append('OP %d setup' % p)
@@ -299,11 +304,17 @@ def single_writer(seed, nops=14):
     for _ in range(nops):
         c = r.random()
         if c < 0.65:
-            for _ in range(r.choice([1, 1, 2, 3])):
+            for j in range(r.choice([1, 1, 2, 3])):
                 val += 1
-                lines.append('OP %d write 1 %d %d' % (w, t, val))
-                if r.random() < 0.6:
-                    lines.append('FRAME %d %d' % (w, r.randint(1, 2)))
+                # a Name may be a 100 kB string (large payload) followed by a short one
+                big = (t == 7 and j == 0 and r.random() < 0.35)
+                lines.append('OP %d write 1 %d %d' % (w, t, 100000 + val if big else val))
+                if big or r.random() < 0.6:
+                    lines.append('FRAME %d %d' % (w, 1 if big else r.randint(1, 2)))
+                if big:
+                    val += 1
+                    lines.append('OP %d write 1 %d %d' % (w, t, val))
+                    lines.append('FRAME %d 1' % w)
         elif others:
             h, q = r.choice(others)
             val += 1
@@ -453,25 +464,35 @@ def join(seed, nops=14):
     for p in range(n):
         lines.append('OP %d switches %d %d %d' % ((p,) + sw))
     joiner = n - 1
+    # with four peers: two joiners, the second one a little after the first (changes in between)
+    joiner2 = n - 2 if n >= 4 and r.random() < 0.6 else None
     for p in range(n - 1):
-        lines.append('OP %d setup' % p)
+        if p != joiner2:
+            lines.append('OP %d setup' % p)
     lines.append('ROUND %d' % r.randint(6, 9))
-    peers = list(range(n - 1))
+    peers = [p for p in range(n - 1) if p != joiner2]
     ents, val, parent = [], 10, {}
+    published = set()
     when = r.randint(2, nops - 2)
+    when2 = when + r.randint(1, 3)
     busy = r.random() < 0.6
     for i in range(nops):
         if i == when:
             if not busy:
                 lines.append('DRAIN 60')
             lines.append('OP %d setup' % joiner)
+        if joiner2 is not None and i == when2:
+            lines.append('OP %d setup' % joiner2)
         p = r.choice(peers if len(peers) == 1 or r.random() < 0.8 else [0])
         c = r.random()
         if c < 0.3 or not ents:
             h = len(ents) + 1
             t = r.choice(types)
             val += 1
-            lines.append('OP %d spawn %d 1 %d:%d' % (p, h, t, val % 3 if t == 3 else val))
+            if r.random() < 0.3:
+                lines.append('OP %d spawn %d 1' % (p, h))          # a bare synchronized entity (group / parent node)
+            else:
+                lines.append('OP %d spawn %d 1 %d:%d' % (p, h, t, val % 3 if t == 3 else val))
             ents.append((h, p))
         elif c < 0.7:
             h, owner = r.choice(ents)
@@ -486,9 +507,24 @@ def join(seed, nops=14):
         else:
             val += 1
             kk = r.choice([0, 1, 2, 3])
-            lines.append('OP %d addasset %d %d %d' % (p, kk, 100 * (kk + 1) + 10 * p + r.randint(1, 2), val))
+            if kk != 1 and published and r.random() < 0.4:
+                # another peer replaces an asset somebody else published (not meshes: known finding S12),
+                # after a drain
+                aid = r.choice(sorted(a for (k2, a) in published if k2 == kk) or [None])
+                if aid is not None:
+                    lines.append('SLEEP 40')
+                    lines.append('DRAIN 60')
+                    lines.append('OP %d addasset %d %d %d' % (p, kk, aid, val))
+                    lines.append('SLEEP 40')
+                    lines.append('DRAIN 60')
+            else:
+                aid = 100 * (kk + 1) + 10 * p + r.randint(1, 2)
+                lines.append('OP %d addasset %d %d %d' % (p, kk, aid, val))
+                published.add((kk, aid))
         if r.random() < 0.8:
             _pace(r, lines, peers + ([joiner] if i >= when else []))
+    if joiner2 is not None and when2 >= nops:
+        lines.append('OP %d setup' % joiner2)
     lines.append('SLEEP 60')
     lines.append('DRAIN 80')
     return '\n'.join(lines) + '\n', dict(joiner=joiner, enabled={p: sw for p in range(n)}, types=types)
